@@ -38,7 +38,10 @@ RULE = ("scenario = (tree key, waiting-area cap, forest shape {chain, star, rand
         "parent vector and arrival order; non-trivial = at least one token arrives before its parent or a bad token "
         "is mixed in; multi-tree scenarios: 2-3 keys, one view and forest each, foreign / foreign-child / forged tokens, "
         "every token offered to several views in a random interleaving as ONE shared Token object (80 %), plus direct "
-        "token.verify(key) calls")
+        "token.verify(key) calls; loaded trees: elements written by _append without checks (forged/foreign/dangling "
+        "elements with signed tokens behind them) then verify/get_root_path of every token; token forms built by "
+        "from_database_tuple with right/wrong content; re-signed twins (ECDSA keys); small-scope enumeration: all "
+        "shapes x all permutations, plain and with one extra bad/duplicate item")
 TRUSTED_BASE = [
     "hand-written Lean model of tokentree/tree.py, token.py, signed_object.py (Ipv8/C16/Model.lean), tied to the code by "
     "the correspondence run; tools/gen_c16.py (AST extraction of five constants) for GenConst.lean",
@@ -139,7 +142,7 @@ def build_tokens(rng, sk, fk, genesis: bytes, parents: list[int], mix: list[str]
     toks = []
     for i, p in enumerate(parents):
         prev = genesis if p < 0 else tk_hid(toks[p])
-        toks.append(mk_token(sk, prev, b"c%d-%d" % (i, rng.randrange(1 << 30))))
+        toks.append(mk_token(sk, prev, b"" if rng.random() < 0.04 else b"c%d-%d" % (i, rng.randrange(1 << 30))))
     real = list(toks)
     for kind in mix:
         base = rng.choice(real)
@@ -158,6 +161,16 @@ def build_tokens(rng, sk, fk, genesis: bytes, parents: list[int], mix: list[str]
         elif kind == "foreign-tree":   # a token of the other key's own tree
             fgen = sha3(fk.pub().key_to_bin())
             t = mk_token(fk, fgen, b"ftree%d" % rng.randrange(1 << 30), label=kind, good=False)
+        elif kind in ("resigned", "resigned-child"):
+            # the same pointer pair signed a second time (another valid signature with ECDSA keys, the identical
+            # token with deterministic ones): a different token with its own hash and its own children
+            twins = [x for x in toks if x["label"] == "resigned"]
+            if kind == "resigned" or not twins:
+                t = mk_token(sk, bytes.fromhex(base["prev"]), bytes.fromhex(base["content"]), label="resigned")
+                if t["sig"] == base["sig"]:
+                    t["label"] = "real"
+            else:
+                t = mk_token(sk, tk_hid(rng.choice(twins)), b"twinchild%d" % rng.randrange(1 << 30), label="real")
         elif kind == "dangling":       # properly signed, parent unknown
             t = mk_token(sk, sha3(b"nowhere%d" % rng.randrange(1 << 30)), b"dangling%d" % rng.randrange(1 << 30),
                          label=kind)
@@ -220,6 +233,12 @@ def closing_ops(rng, toks: list, n: int, contents: list | None = None) -> list:
         good = known is not None and rng.random() < 0.5
         c = bytes.fromhex(known) if good else b"wrong%d" % rng.randrange(1 << 20)
         ops.append(["recv", i, rng.choice(["pub", "hash"]), c.hex()])
+    for _ in range(rng.randrange(0, 3)):
+        i = rng.randrange(nt)
+        known = (toks[i]["content"] if toks else contents[i])
+        ops.append(["todb", i, rng.choice(["pub", "full", "dbgood", "dbbad"]) if known is not None else "hash"])
+    if rng.random() < 0.4:
+        ops.append(["create", rng.randrange(nt), (b"created%d" % rng.randrange(1 << 30)).hex()])
     ops.append(["missing"])
     ops.append(["ser"])
     if rng.random() < 0.5:
@@ -252,6 +271,8 @@ def make_own_scenario(rng) -> dict:
             contents.append(None)
         if rng.random() < 0.15:
             ops.append([rng.choice(["verify", "path"]), rng.randrange(len(contents)), rng.choice([1000, 1, 2, n, -1])])
+        if rng.random() < 0.12:     # the owner's tree is offered one of its own tokens from outside
+            ops.append(["gather", rng.randrange(len(contents)), rng.choice(["pub", "hash"])])
     ops += closing_ops(rng, [], len(contents), contents)
     return {"key": keyhex, "fkey": keyhex, "keytype": keytype, "cap": 100, "shape": "own", "order": "own",
             "size_class": "own", "parents": [op[1] for op in ops if op[0] == "add"], "mix": [], "tokens": [],
@@ -259,7 +280,7 @@ def make_own_scenario(rng) -> dict:
 
 
 def make_scenario(rng, size_class: str | None = None) -> dict:
-    keytype = "curve25519" if rng.random() < 0.9 else "very-low"
+    keytype = "curve25519" if rng.random() < 0.85 else "very-low"
     if keytype == "curve25519":
         keyhex, fkeyhex = seeded_key(rng), seeded_key(rng)
     else:
@@ -289,12 +310,15 @@ def make_scenario(rng, size_class: str | None = None) -> dict:
     kinds = ["forged-sig", "forged-chash", "forged-prev", "foreign", "foreign-tree", "dangling", "dangling-child"]
     nmix = rng.choice([0, 0, 1, 2, 3, 5]) if n < 50 else rng.choice([0, 1])
     mix = [rng.choice(kinds) for _ in range(nmix)]
+    if keytype == "very-low" and n < 50:     # ECDSA: two valid signatures of one pointer pair exist
+        mix += ["resigned", "resigned-child"] + (["resigned"] if rng.random() < 0.5 else [])
     toks = build_tokens(rng, sk, fk, genesis, parents, mix)
     order = rng.choice(["inorder", "reversed", "random", "random", "leaves-first", "siblings-then-parent"])
     arr = arrival(rng, toks, parents, order)
     ops = []
     for i in arr:
-        form = rng.choice(["pub", "pub", "full", "hash"]) if toks[i]["content"] is not None else "hash"
+        form = rng.choice(["pub", "pub", "full", "hash", "dbgood", "dbbad"]) if toks[i]["content"] is not None \
+            else rng.choice(["hash", "dbbad"])
         ops.append(["gather", i, form])
         r = rng.random()
         if r < 0.12:    # duplicate, maybe in another form, now or later
@@ -339,6 +363,16 @@ class Run:
         self.named: set[str] = set()
         self.offered: list[dict] = []          # token dicts offered so far (harness ground truth)
         self.failed = False
+        self.sigs_made: list[str] = []
+        if sc.get("own"):       # ECDSA signatures are not seedable: record them, and reuse recorded ones on replay
+            recorded = list(sc.get("signatures") or [])
+            orig = self.sk.signature
+
+            def signature(msg, _orig=orig, _rec=recorded):
+                sg = bytes.fromhex(_rec.pop(0)) if _rec else _orig(msg)
+                self.sigs_made.append(sg.hex())
+                return sg
+            self.sk.signature = signature
         self.share = share
         if share is not None:                  # same key and tokens, same driver process: tables are already there
             self.registered_h, self.registered_v, self.named = share.registered_h, share.registered_v, share.named
@@ -361,19 +395,39 @@ class Run:
                 ok = self.crypto.is_valid_signature(self.pub, msg, sig)
             except Exception:
                 ok = False
+                self.ctx.count("crypto:is_valid_signature-raised")
             self.line(f"v {hx(msg)} {hx(sig)} {1 if ok else 0}", "ok")
 
     def reg_fields(self, prev: bytes, chash: bytes, sig: bytes):
         self.reg_h(prev + chash + sig)
         self.reg_v(prev + chash, sig)
 
+    def db_content(self, i: int, form: str):
+        """the content column of the database row used for forms dbgood / dbbad / dbnone"""
+        t = self.toks[i]
+        if form == "dbgood" and t["content"] is not None:
+            return bytes.fromhex(t["content"])
+        if form == "dbbad":
+            return b"row-of-another-token-%d" % i
+        return None
+
     def name(self, i: int, form: str) -> str:
         t = self.toks[i]
-        nm = f"t{i}{form[0]}"
+        nm = f"t{i}{form[0] if not form.startswith('db') else form}"
         if self.with_lines and nm not in self.named:
             self.named.add(nm)
             prev, chash, sig = (bytes.fromhex(t[k]) for k in ("prev", "chash", "sig"))
             self.reg_fields(prev, chash, sig)
+            if form.startswith("db"):       # Token.from_database_tuple(prev, sig, chash, content)
+                c = self.db_content(i, form)
+                if c is not None:
+                    self.reg_h(c)
+                kept = c if (c is not None and sha3(c) == chash) else None      # what a bound token may carry
+                o = self.obj(i, form)
+                self.line(f"fromdb {nm} {hx(prev)} {hx(sig)} {hx(chash)} {'none' if c is None else hx(c)}",
+                          "none" if o.content is None else hx(o.content))
+                self.ctx.count(f"fromdb:{'none' if c is None else ('bound' if kept is not None else 'unbound')}")
+                return nm
             content = "none"
             if form == "full":
                 content = hx(bytes.fromhex(t["content"]))
@@ -390,6 +444,15 @@ class Run:
             return Token.unserialize(prev + chash + sig, self.pub)
         if form == "full":
             return Token(prev, content=bytes.fromhex(t["content"]), signature=sig)
+        if form.startswith("db"):
+            c = self.db_content(i, form)
+            o = Token.from_database_tuple(prev, sig, chash, c)
+            if (o.previous_token_hash, o.content_hash, o.signature) != (prev, chash, sig) or \
+                    o.content != (c if (c is not None and sha3(c) == chash) else None):
+                self.fail("Token.from_database_tuple:unbound-content",
+                          f"from_database_tuple with content {c!r} gives content {o.content!r} "
+                          f"(hashes to the pointer: {c is not None and sha3(c) == chash})")
+            return o
         return Token(prev, content_hash=chash, signature=sig)
 
     def state(self, tree) -> str:
@@ -406,7 +469,7 @@ class Run:
     # -- oracle ------------------------------------------------------------------------------------------
     def fail(self, sig: str, what: str, extra: dict | None = None):
         self.failed = True
-        rep = {"scenario": self.sc}
+        rep = {"scenario": dict(self.sc, signatures=list(self.sigs_made)) if self.sc.get("own") else self.sc}
         if extra:
             rep.update(extra)
         self.ctx.oracle_fail(sig, what, rep)
@@ -432,6 +495,8 @@ class Run:
 
     def check_invariants(self, tree, where: str):
         """soundness: holds after every call, whatever arrived and in whatever order"""
+        if self.sc.get("loaded"):       # elements were written directly, the tree promises nothing about them
+            return
         fix = self.fixpoint(self.offered)
         goodh = {tk_hid(t) for t in self.offered if t["good"]}
         keys = set(tree.elements.keys())
@@ -469,6 +534,8 @@ class Run:
 
     def check_complete(self, tree, where: str):
         """completeness: only while the waiting area cannot have overflowed"""
+        if self.sc.get("loaded"):
+            return
         if self.may_overflow(self.offered):
             self.ctx.count("oracle:complete-skipped(overflow-possible)")
             return
@@ -572,30 +639,73 @@ class Run:
                     nm = self.name(i, form)
                     self.line(f"append {nm}", self.state(tree))
                     self.check_invariants(tree, f"after op {n} add(after={parent})")
+                elif kind == "load":      # what a database load does: elements written without any check
+                    _, i, form = op
+                    tok = self.obj(i, form)
+                    nm = self.name(i, form)
+                    tree._append(tok)
+                    self.ctx.count(f"load:{self.toks[i]['label']}")
+                    self.line(f"append {nm}", self.state(tree))
+                elif kind == "todb":
+                    _, i, form = op
+                    tok = self.obj(i, form)
+                    nm = self.name(i, form)
+                    row = tok.to_database_tuple()
+                    self.line(f"todb {nm}", " ".join(hx(x) for x in row[:3]) + " " + ("none" if row[3] is None else hx(row[3])))
+                    from ipv8.attestation.tokentree.token import Token as _T
+                    back = _T.from_database_tuple(*row)
+                    if (back.get_plaintext_signed(), back.content) != (tok.get_plaintext_signed(), tok.content):
+                        self.fail("Token.from_database_tuple:roundtrip", "to_database_tuple -> from_database_tuple changed the token")
+                elif kind == "create":
+                    _, parent, chex = op
+                    from ipv8.attestation.tokentree.token import Token as _T
+                    c = bytes.fromhex(chex)
+                    ptok, pnm = self.obj(parent, "hash"), self.name(parent, "hash")
+                    new = _T.create(ptok, c, self.sk)
+                    self.reg_h(c)
+                    self.line(f"create c{n} {pnm} {hx(c)} {hx(new.signature)}",
+                              f"{hx(new.previous_token_hash)} {hx(new.content_hash)} "
+                              f"{'none' if new.content is None else hx(new.content)}")
+                    try:
+                        ok = self.crypto.is_valid_signature(self.pub, self.hid[parent] + sha3(c), new.signature)
+                    except Exception:
+                        ok = False
+                    if new.previous_token_hash != self.hid[parent] or new.content_hash != sha3(c) or new.content != c or not ok:
+                        self.fail("Token.create:bad-token", f"Token.create behind token {parent}: link ok="
+                                  f"{new.previous_token_hash == self.hid[parent]}, pointer ok={new.content_hash == sha3(c)}, "
+                                  f"signature ok={ok}")
                 elif kind in ("verify", "path"):
                     _, i, depth = op
                     form = "hash"
                     tok = self.obj(i, form)
                     nm = self.name(i, form)
-                    exp = self.expected_path(tree, i, depth)
+                    # a negative maxdepth ("-1") is not specified: today it never succeeds, a repair may make it mean
+                    # "unbounded".  Such calls are made, but only judged for SAFETY (True / a path needs a genuine root
+                    # path of some length) and not compared with the model.
+                    judged = depth >= 0
+                    exp = self.expected_path(tree, i, depth if judged else 10 ** 9)
+                    if not judged:
+                        self.ctx.count("maxdepth:negative(unjudged)")
                     if kind == "verify":
-                        r = tree.verify(tok) if depth == SPEC_DEPTH else tree.verify(tok, depth)
-                        self.line(f"verify {nm} {depthw(depth)}", "true" if r else "false")
+                        r = tree.verify(tok) if depth == SPEC_DEPTH else tree.verify(tok, maxdepth=depth)
+                        if judged:
+                            self.line(f"verify {nm} {depthw(depth)}", "true" if r else "false")
                         self.ctx.count(f"verify:{r}:{'good' if self.toks[i]['good'] else 'bad'}")
                         if r and exp is None:
                             self.fail("TokenTree.verify:false-positive",
                                       f"verify({self.toks[i]['label']} token {id8(self.hid[i])}, {depth}) is True but it has "
                                       f"no root path of valid contained tokens within {depth}")
-                        if not r and exp is not None and depth > 0:
+                        if judged and not r and exp is not None and depth > 0:
                             self.fail("TokenTree.verify:false-negative",
                                       f"verify(token {id8(self.hid[i])}, {depth}) is False but its root path has "
                                       f"{len(exp)} tokens")
                     else:
-                        r = tree.get_root_path(tok) if depth == SPEC_DEPTH else tree.get_root_path(tok, depth)
+                        r = tree.get_root_path(tok) if depth == SPEC_DEPTH else tree.get_root_path(tok, maxdepth=depth)
                         got = [sha3(x.previous_token_hash + x.content_hash + x.signature) for x in r]
-                        self.line(f"path {nm} {depthw(depth)}", ",".join(id8(h) for h in got))
+                        if judged:
+                            self.line(f"path {nm} {depthw(depth)}", ",".join(id8(h) for h in got))
                         self.ctx.count(f"path:{'empty' if not got else 'len%d' % min(len(got), 5)}")
-                        if got != (exp or []) and not (depth <= 0 and not got):
+                        if got != (exp or []) and not (not judged and not got):
                             self.fail("TokenTree.get_root_path:wrong-path",
                                       f"get_root_path({self.toks[i]['label']} token {id8(self.hid[i])}, {depth}) = "
                                       f"{[id8(h) for h in got]}, expected {[id8(h) for h in (exp or [])]}")
@@ -642,7 +752,25 @@ class Run:
                     else:
                         i = op[1]
                         if self.hid[i] not in tree.elements:
-                            self.ctx.count("reload_upto:skipped(not-an-element)")
+                            # serialize_public(up_to=<anything>) starts with that token, whatever it is; a reader must
+                            # still end up with good, connected tokens only
+                            self.ctx.count("reload_upto:not-an-element(soundness-only)")
+                            sb = tree.serialize_public(self.obj(i, "hash"))
+                            t2 = self.new_tree()
+                            good_signed = {bytes.fromhex(t["prev"]) + bytes.fromhex(t["chash"]) + bytes.fromhex(t["sig"]): t
+                                           for t in self.toks if t["good"]}
+                            self.offered = []
+                            for j in range(0, len(sb) - self.chunk + 1, self.chunk):
+                                ch = sb[j:j + self.chunk]
+                                self.reg_fields(ch[:32], ch[32:64], ch[64:])
+                                self.offered.append(good_signed.get(ch) or {"prev": ch[:32].hex(), "chash": ch[32:64].hex(),
+                                                                            "sig": ch[64:].hex(), "content": None,
+                                                                            "good": False, "label": "bytes"})
+                            ok2 = t2.unserialize_public(sb)
+                            self.line(f"new {capw(sc['cap'])}", "ok")
+                            self.line(f"unser {hx(sb)}", f"{'true' if ok2 else 'false'} {self.state(t2)}")
+                            tree = t2
+                            self.check_invariants(tree, "after reload of serialize_public(up_to=<not an element>)")
                             continue
                         tok = self.obj(i, "hash")
                         s = tree.serialize_public(tok)
@@ -733,6 +861,8 @@ class Run:
         if how == "empty":
             return b""
         if how == "truncate":
+            if s and rng.random() < 0.35:
+                return s[:c * rng.randrange(len(s) // c + 1)]
             return s[:rng.randrange(len(s) + 1)] if s else s
         if how == "flip":
             return flip(s, rng) if s else s
@@ -862,7 +992,7 @@ def run_random(ctx: Ctx, n_scen: int, n_orders: int, use_model: bool, size_class
         ctx.case(sig_of(sc), nontrivial(sc))
         if k < 2:
             ctx.sample({"shape": sc["shape"], "order": sc["order"], "cap": sc["cap"], "parents": sc["parents"],
-                        "mix": sc["mix"], "ops": sc["ops"][:12], "impl_last": r.impl[-1][:200] if r.impl else None})
+                        "mix": sc["mix"], "ops": sc["ops"][:12]})
         # other arrival orders of the same multiset
         g = gather_ops(sc)
         if len(g) <= 60:
@@ -879,6 +1009,81 @@ def run_random(ctx: Ctx, n_scen: int, n_orders: int, use_model: bool, size_class
             runs = []
     if use_model:
         feed_model(ctx, runs)
+
+
+def make_loaded_scenario(rng) -> dict:
+    """a tree whose elements were written without checks (`_append`: database load, "direct writing" in the words of
+    TokenTree.verify's docstring): forged / foreign / dangling tokens ARE elements here, and properly signed tokens hang
+    behind them; verify and get_root_path have to find that out themselves"""
+    keytype = "curve25519" if rng.random() < 0.9 else "very-low"
+    keyhex, fkeyhex = (seeded_key(rng), seeded_key(rng)) if keytype == "curve25519" else tuple(VERY_LOW_KEYS)
+    sk, fk = load_key(keyhex), load_key(fkeyhex)
+    genesis = sha3(sk.pub().key_to_bin())
+    n = rng.randrange(1, 9)
+    parents = parents_for(rng, n, rng.choice(["chain", "random", "binary", "tworoots"]))
+    mix = [rng.choice(["forged-sig", "foreign", "forged-prev", "dangling"]) for _ in range(rng.randrange(1, 4))]
+    mix += ["dangling-child"] * rng.randrange(1, 4)      # signed by the tree key, behind one of the bad tokens
+    if rng.random() < 0.5:
+        mix += ["dangling-child"]
+    toks = build_tokens(rng, sk, fk, genesis, parents, mix)
+    idx = list(range(len(toks)))
+    rng.shuffle(idx)
+    ops = []
+    for i in idx:
+        if rng.random() < 0.9:
+            ops.append(["load", i, rng.choice(["pub", "hash", "full"]) if toks[i]["content"] is not None else "hash"])
+        if rng.random() < 0.3:
+            ops.append([rng.choice(["verify", "path"]), rng.randrange(len(toks)), rng.choice([1000, 1000, 1, 2, 3, -1])])
+    for i in range(len(toks)):
+        ops.append([rng.choice(["verify", "path"]), i, rng.choice([1000, 1000, 1000, 2, 4])])
+    for _ in range(rng.randrange(0, 3)):      # tokens gathered on top of what was loaded
+        ops.append(["gather", rng.randrange(len(toks)), "pub"])
+        ops.append([rng.choice(["verify", "path"]), rng.randrange(len(toks)), 1000])
+    ops.append(["ser"])
+    if rng.random() < 0.5:
+        ops.append(["serupto", rng.randrange(len(toks))])
+    return {"key": keyhex, "fkey": fkeyhex, "keytype": keytype, "cap": 100, "shape": "loaded", "order": "loaded",
+            "size_class": "loaded", "parents": parents, "mix": mix, "tokens": toks, "ops": ops, "loaded": True}
+
+
+def run_loaded(ctx: Ctx, n_scen: int, use_model: bool):
+    runs = []
+    for k in range(n_scen):
+        sc = make_loaded_scenario(ctx.rng)
+        ctx.count("shape:loaded")
+        r = Run(ctx, sc, use_model)
+        r.run()
+        runs.append(r)
+        bad_el = sum(1 for h in r.tree.elements if h not in {tk_hid(t) for t in sc["tokens"] if t["good"]})
+        ctx.count("loaded:trees-with-invalid-elements" if bad_el else "loaded:trees-all-valid")
+        ctx.case(("loaded", tuple(sc["parents"]), tuple(sc["mix"]), tuple(tuple(o[:2]) for o in sc["ops"][:20])), True)
+        if k < 1:
+            ctx.sample({"loaded": True, "parents": sc["parents"], "mix": sc["mix"], "ops": sc["ops"][:12]})
+    if use_model:
+        feed_model(ctx, runs)
+
+
+def run_deep(ctx: Ctx):
+    """implementation only (the table-driven driver is quadratic): a chain just beyond the default maxdepth"""
+    rng = ctx.rng
+    keyhex = seeded_key(rng)
+    sk = load_key(keyhex)
+    genesis = sha3(sk.pub().key_to_bin())
+    n = SPEC_DEPTH + 1
+    toks = build_tokens(rng, sk, sk, genesis, list(range(-1, n - 1)), [])
+    sc = {"key": keyhex, "fkey": keyhex, "keytype": "curve25519", "cap": 100, "shape": "deep", "order": "inorder",
+          "size_class": "deep", "parents": [], "mix": [], "tokens": toks,
+          "ops": [["gather", i, "hash"] for i in range(n)] + [["verify", n - 1, SPEC_DEPTH], ["verify", n - 2, SPEC_DEPTH],
+                                                              ["path", n - 2, SPEC_DEPTH], ["path", n - 1, SPEC_DEPTH],
+                                                              ["verify", n - 1, n], ["verify", n - 1, -1]]}
+    # only the closing calls are checked step by step; the arrivals are checked once at the end
+    r = Run(ctx, dict(sc, loaded=True), False)
+    r.run()
+    r.sc = sc
+    r.check_invariants(r.tree, "deep chain")
+    r.check_complete(r.tree, "deep chain")
+    ctx.count("special:deep-chain-%d" % n)
+    ctx.case(("deep", n), True)
 
 
 def run_own(ctx: Ctx, n_scen: int, use_model: bool):
@@ -1157,7 +1362,7 @@ class MultiRun:
                     tok, nm = self.obj(i), self.name(v, i)
                     exp = self.expected_path(v, trees[v], i, depth)
                     if kind == "verify":
-                        r = trees[v].verify(tok) if depth == SPEC_DEPTH else trees[v].verify(tok, depth)
+                        r = trees[v].verify(tok) if depth == SPEC_DEPTH else trees[v].verify(tok, maxdepth=depth)
                         self.line(f"vverify v{v} {nm} {depthw(depth)}", "true" if r else "false")
                         self.ctx.count(f"multi:verify:{r}:{'own-key' if self.toks[i]['signer'] == v else 'other-key'}")
                         if bool(r) != (exp is not None):
@@ -1165,7 +1370,7 @@ class MultiRun:
                                       f"op {n}: verify by the tree of key {v} of a {self.toks[i]['label']} token signed by key "
                                       f"{self.toks[i]['signer']} (depth {depth}) is {r}")
                     else:
-                        r = trees[v].get_root_path(tok) if depth == SPEC_DEPTH else trees[v].get_root_path(tok, depth)
+                        r = trees[v].get_root_path(tok) if depth == SPEC_DEPTH else trees[v].get_root_path(tok, maxdepth=depth)
                         got = [sha3(x.previous_token_hash + x.content_hash + x.signature) for x in r]
                         self.line(f"vpath v{v} {nm} {depthw(depth)}", ",".join(id8(h) for h in got))
                         if got != (exp or []):
@@ -1245,46 +1450,73 @@ def forest_shapes(n: int):
     return out
 
 
-def run_exhaustive(ctx: Ctx, max_n: int, use_model: bool, mixins: bool):
+EXTRA_KINDS = ["forged-sig", "foreign", "dangling", "duplicate", "wrong-content"]
+_BUILD_KIND = {"forged-sig": "forged-sig", "foreign": "foreign", "dangling": "dangling", "wrong-content": "forged-chash"}
+
+
+def run_exhaustive(ctx: Ctx, sizes, use_model: bool, extra_kinds=None, tag="plain", one_kind_per_shape=False):
+    """every forest shape with n in `sizes` really signed tokens, every arrival permutation; with `extra_kinds`, one
+    more item is mixed in (a forged signature, a token of another key, a dangling token, a second arrival of one of
+    the tokens - with content -, a token pointing to other content under the old signature) and all permutations of
+    the n + 1 items are run for every kind (or, one_kind_per_shape, for one kind per shape in rotation)"""
     rng = ctx.rng
     keyhex, fkeyhex = seeded_key(rng), seeded_key(rng)
     sk, fk = load_key(keyhex), load_key(fkeyhex)
     genesis = sha3(sk.pub().key_to_bin())
-    total = 0
-    for n in range(1, max_n + 1):
+    total, rot = 0, 0
+    for n in sizes:
         shapes = forest_shapes(n)
-        ctx.count(f"exhaustive:shapes-n{n}", len(shapes))
+        ctx.count(f"exhaustive:{tag}:shapes-n{n}", len(shapes))
         for pv in shapes:
-            mix = []
-            if mixins and n <= 4:
-                mix = [rng.choice(["forged-sig", "foreign", "dangling", "forged-prev", "dangling-child"])]
-            toks = build_tokens(rng, sk, fk, genesis, pv, mix)
-            base = {"key": keyhex, "fkey": fkeyhex, "keytype": "curve25519", "cap": 100, "shape": "exhaustive",
-                    "order": "all", "size_class": f"n{n}", "parents": pv, "mix": mix, "tokens": toks, "ops": []}
-            ref = None
-            runs = []
-            for perm in itertools.permutations(range(len(toks))):
-                sc = dict(base, ops=[["gather", i, "pub"] for i in perm])
-                r = Run(ctx, sc, use_model, share=runs[0] if runs else None)
-                r.run()
-                r.check_complete(r.tree, "exhaustive order")
-                keys = frozenset(r.tree.elements.keys())
-                if ref is None:
-                    ref = (keys, perm)
-                elif keys != ref[0]:
-                    r.fail("TokenTree.gather_token:order-dependent",
-                           f"parents {pv}: arrival order {list(ref[1])} gives {len(ref[0])} elements, "
-                           f"order {list(perm)} gives {len(keys)}",
-                           {"order_a": list(ref[1]), "order_b": list(perm)})
-                runs.append(r)
-                total += 1
-                ctx.case(("ex", tuple(pv), perm, tuple(mix)), any(pv[i] >= 0 and perm.index(pv[i]) > perm.index(i)
-                                                                   for i in range(n)) or bool(mix))
-                if len(ctx.failures) > 20:
-                    return
-            if use_model:
-                feed_model(ctx, runs)
-    ctx.extra["exhaustive"] = {"max_tokens": max_n, "orders_run": total}
+            if extra_kinds is None:
+                kinds = [None]
+            elif one_kind_per_shape:
+                kinds = [extra_kinds[rot % len(extra_kinds)]]
+                rot += 1
+            else:
+                kinds = list(extra_kinds)
+            for kind in kinds:
+                mix = [_BUILD_KIND[kind]] if kind in _BUILD_KIND else []
+                toks = build_tokens(rng, sk, fk, genesis, pv, mix)
+                if kind is None:
+                    items = [(i, "pub") for i in range(n)]
+                else:
+                    items = [(i, rng.choice(["pub", "full", "hash"])) for i in range(n)]
+                    if kind == "duplicate":
+                        items.append((rng.randrange(n), "full"))
+                    else:
+                        items.append((n, "hash" if toks[n]["content"] is None else rng.choice(["pub", "full"])))
+                    ctx.count(f"exhaustive:{tag}:extra:{kind}")
+                base = {"key": keyhex, "fkey": fkeyhex, "keytype": "curve25519", "cap": 100, "shape": "exhaustive",
+                        "order": "all", "size_class": f"n{n}", "parents": pv, "mix": [kind] if kind else [],
+                        "tokens": toks, "ops": []}
+                ref = None
+                runs = []
+                for perm in itertools.permutations(range(len(items))):
+                    sc = dict(base, ops=[["gather", items[k][0], items[k][1]] for k in perm])
+                    r = Run(ctx, sc, use_model, share=runs[0] if runs else None)
+                    r.run()
+                    r.check_complete(r.tree, "exhaustive order")
+                    keys = frozenset(r.tree.elements.keys())
+                    if ref is None:
+                        ref = (keys, sc["ops"])
+                    elif keys != ref[0]:
+                        r.fail("TokenTree.gather_token:order-dependent",
+                               f"parents {pv} (+{kind}): arrival order {[o[1] for o in ref[1]]} gives {len(ref[0])} "
+                               f"elements, order {[o[1] for o in sc['ops']]} gives {len(keys)}",
+                               {"order_a": [o[1] for o in ref[1]], "order_b": [o[1] for o in sc["ops"]]})
+                    runs.append(r)
+                    total += 1
+                    order = [items[k][0] for k in perm]
+                    early = any(pv[i] >= 0 and order.index(pv[i]) > order.index(i) for i in range(n))
+                    ctx.case(("ex", tuple(pv), perm, kind), early or kind is not None)
+                    if len(ctx.failures) > 20:
+                        return
+                if use_model:
+                    feed_model(ctx, runs)
+    ctx.extra.setdefault("small_scope_enumeration", {})[tag] = {
+        "real_tokens": list(sizes), "extra_item_kinds": (extra_kinds or []),
+        "every_kind_for_every_shape": bool(extra_kinds) and not one_kind_per_shape, "orders_run": total}
 
 
 def run_special(ctx: Ctx, use_model: bool):
@@ -1330,21 +1562,33 @@ def run(ctx: Ctx):
     if ctx.replay_input is not None:
         return replay(ctx, ctx.replay_input)
     run_special(ctx, ctx.model_ok)
-    run_exhaustive(ctx, ctx.scale(4, 6), ctx.model_ok, mixins=False)
-    if ctx.thorough():
-        run_exhaustive(ctx, 4, ctx.model_ok, mixins=True)
+    run_deep(ctx)
+    # exhaustive small scope.  The property asks for "every tree shape with up to 6 tokens and every permutation of
+    # their arrival, mixed with forged signatures, tokens of other keys, duplicates and wrong content":
+    #   quick    : plain <= 4 tokens; <= 3 tokens + one extra item of each of the five kinds (<= 4 items)
+    #   thorough : plain <= 6 tokens; <= 5 tokens + one extra item of each of the five kinds (<= 6 items)
+    # More than one extra item per history is covered by the random scenarios only; evidence key
+    # coverage.small_scope_enumeration (coverage.exhaustive stays false).
+    run_exhaustive(ctx, range(1, ctx.scale(4, 6) + 1), ctx.model_ok)
+    run_exhaustive(ctx, range(1, ctx.scale(3, 5) + 1), ctx.model_ok, EXTRA_KINDS, tag="one-extra-item")
+    ctx.extra.setdefault("small_scope_enumeration", {})["property_scope"] = (
+        "asked: <= 6 tokens mixed with forged/foreign/duplicate/wrong-content items, all permutations; run here: see the "
+        "two entries (real_tokens + at most ONE extra item); several extra items at once are sampled, not enumerated")
+    ctx.extra["exhaustive"] = False     # the property's quantifier is not exhausted by any tier (see the key above)
+    run_loaded(ctx, ctx.scale(150, 1200), ctx.model_ok)
     run_own(ctx, ctx.scale(150, 1000), ctx.model_ok)
     run_multi(ctx, ctx.scale(250, 2000), ctx.model_ok)
-    run_random(ctx, ctx.scale(500, 4000), ctx.scale(3, 5), ctx.model_ok)
+    run_random(ctx, ctx.scale(500, 3000), ctx.scale(3, 5), ctx.model_ok)
 
 
 def search(ctx: Ctx, reason: str):
     run_special(ctx, False)
-    run_exhaustive(ctx, 4 if ctx.tier == "quick" else 5, False, mixins=False)
-    run_exhaustive(ctx, 4, False, mixins=True)
-    run_own(ctx, 300, False)
-    run_multi(ctx, 600, False)
-    run_random(ctx, ctx.scale(1200, 4000), 5, False)
+    run_exhaustive(ctx, range(1, 5 if ctx.tier == "quick" else 6), False, tag="search-plain")
+    run_exhaustive(ctx, range(1, 4 if ctx.tier == "quick" else 5), False, EXTRA_KINDS, tag="search-one-extra-item")
+    run_loaded(ctx, ctx.scale(150, 600), False)
+    run_own(ctx, ctx.scale(150, 300), False)
+    run_multi(ctx, ctx.scale(250, 600), False)
+    run_random(ctx, ctx.scale(500, 4000), 4, False)
 
 
 def replay(ctx: Ctx, rec: dict):
